@@ -62,6 +62,43 @@ def expressions():
     return out
 
 
+# ---- critical pairs: let-bound computations of every kind of type against every kind of use of the bound variable
+PAIR_DECLS = """data Lst { Nil, Cons(h: i64, t: Lst) }
+codata Fn { ap(x: i64): i64, twice(x: i64): i64 }
+def fi(k: i64): i64 { print_i64(k); k + 100 }
+def fl(k: i64): Lst { print_i64(k); Cons(k, Nil) }
+def ff(k: i64): Fn { print_i64(k); new { ap(x) => x + k, twice(x) => (x + x) + k } }
+def usei(x: i64): i64 { x + 1 }
+def usel(l: Lst): i64 { l.case { Nil => 0, Cons(h, t) => h } }
+def usef(f: Fn): i64 { f.ap(1) }
+"""
+PAIR_TYPES = {
+    "i64": dict(ty="i64", mk="fi", val="5", use="{x} + 1", other="{y} + 1", usev="{x} + n", otherv="{y} + n", twice="({x} + 1) + ({x} + 2)", pas="usei({x})", oval="40"),
+    "data": dict(ty="Lst", mk="fl", val="Cons(5, Nil)", use="{x}.case {{ Nil => 0, Cons(h, t) => h }}", other="{y}.case {{ Nil => 0, Cons(h, t) => h }}",
+                 usev="{x}.case {{ Nil => n, Cons(h, t) => n }}", otherv="{y}.case {{ Nil => n, Cons(h, t) => n }}",
+                 twice="({x}.case {{ Nil => 0, Cons(h, t) => h }}) + ({x}.case {{ Nil => 1, Cons(h2, t2) => h2 + 1 }})", pas="usel({x})", oval="Cons(40, Nil)"),
+    "codata": dict(ty="Fn", mk="ff", val="new {{ ap(x) => x, twice(x) => x + x }}", use="{x}.ap(5)", other="{y}.ap(5)", usev="{x}.ap(n)", otherv="{y}.ap(n)",
+                   twice="({x}.ap(1)) + ({x}.twice(2))", pas="usef({x})", oval="new {{ ap(x) => x + 40, twice(x) => x }}"),
+}
+
+
+def pair_expressions():
+    out = []
+    k = 0
+    for tn, t in PAIR_TYPES.items():
+        prods = ["{mk}({k})", "label a{k} {{ {mk}({k}) }}", "if n == 0 {{ {mk}({k}) }} else {{ {mk}({k1}) }}", "(print_i64({k}); {val})",
+                 "label b{k} {{ if n == 0 {{ goto b{k} ({val}) }} else {{ {mk}({k}) }} }}"]
+        bodies = ["use", "ignore", "other", "twice", "pas", "usev", "otherv"]
+        for pr in prods:
+            for bd in bodies:
+                k += 2
+                p_ = pr.format(mk=t["mk"], k=k, k1=k + 1, val=t["val"].format())
+                x, y = "v%d" % k, "w%d" % k
+                b_ = "7" if bd == "ignore" else t[bd].format(x=x, y=y)
+                out.append("let %s: %s = %s; let %s: %s = %s; %s" % (y, t["ty"], t["oval"].format(), x, t["ty"], p_, b_))
+    return out
+
+
 def main():
     d = os.path.join(os.path.dirname(os.path.abspath(__file__)), "..", "corpus", "effects")
     os.makedirs(d, exist_ok=True)
@@ -74,6 +111,11 @@ def main():
         body = "".join("println_i64(%s);\n  " % inst(form, fills, c) for form, fills in ex[i:i + per])
         open(os.path.join(d, "eo_%02d.sc" % (i // per)), "w").write(DECLS + "def main(): i64 {\n  " + body + "0\n}\n")
     print(len(ex), "expressions in", (len(ex) + per - 1) // per, "files")
+    pe = pair_expressions()
+    for i in range(0, len(pe), 15):
+        body = "".join("println_i64(%s);\n  " % e for e in pe[i:i + 15])
+        open(os.path.join(d, "pairs_%02d.sc" % (i // 15)), "w").write(PAIR_DECLS + "def main(n: i64): i64 {\n  " + body + "0\n}\n")
+    print(len(pe), "let-bound critical pairs in", (len(pe) + 14) // 15, "files")
 
 
 if __name__ == "__main__":
